@@ -58,7 +58,7 @@ func (e *Event) readArgs() *ReadArgs {
 
 var shapes = map[string]string{"GetItem": "get", "PutItem": "write", "UpdateItem": "write", "DeleteItem": "write",
 	"Query": "read", "Scan": "read", "DescribeTable": "desc", "CreateTable": "desc", "AddTable": "desc",
-	"BatchWrite": "bw", "BatchGet": "bg", "Walk": "walk"}
+	"BatchWrite": "bw", "BatchGet": "bg", "Walk": "walk", "AliasProbe": "alias"}
 
 // Exec performs one abstract operation on a back end.
 func Exec(p Prim, e *Event) *Resp {
@@ -103,6 +103,8 @@ func exec(p Prim, e *Event) *Resp {
 		return p.Transact(e.C)
 	case "Fail":
 		return p.Fail(e.C, e.Mode)
+	case "AliasProbe":
+		return p.AliasProbe(e.C, e.T, e.Kind, e.Item, e.Item2)
 	}
 	r := NewResp()
 	r.Err = "unknown-op"
